@@ -40,9 +40,10 @@ def reconnect_oracle(ix: Index, scn: dict) -> list[Violation]:
     # --- callbacks -------------------------------------------------------------------
     cbs = [ev for ev in h if ev[3] in ("rl_on_connect", "rl_on_disconnect")]
     last = "rl_on_disconnect"
+    alternation = None  # (judged below, once the intervals of the recorded stop/start finding are known)
     for ev in cbs:
         if ev[3] == last:
-            out.append(Violation("callback-alternation", ev[3], f"{ev[3]} at t={ev[2]:.4f} follows another {last}"))
+            alternation = ev
             break
         last = ev[3]
     settled = ix.audit is not None and not ix.audit["tasks"]
@@ -93,12 +94,20 @@ def reconnect_oracle(ix: Index, scn: dict) -> list[Violation]:
         for st in stops_in:
             starts = [x for x in ctl if x[2] == "rl.start" and st[0] < x[0] < s_end]
             if starts:
-                nxt_ok = next((ix.connected_seq[b["conn"]] for b in attempts if b["connected"] and b["seq_new"] > s_end), float("inf"))
+                # the confusion lasts until a session is established by an attempt that was created after the manager has
+                # processed the end of the forgotten session (its on_disconnect handling may be queued behind an attempt
+                # that is already running - and that then succeeds - and only afterwards declares "disconnected")
+                seq_d = next((ev[0] for ev in h if ev[3] == "rl_on_disconnect" and ev[0] > s_end), s_end)
+                nxt_ok = next((ix.connected_seq[b["conn"]] for b in attempts if b["connected"] and b["seq_new"] > seq_d), float("inf"))
                 confused.append((starts[0][0], nxt_ok))
                 break
 
     def in_confusion(seq: int) -> bool:
         return any(a <= seq <= b for a, b in confused)
+
+    if alternation is not None:
+        ev = alternation
+        out.append(Violation("callback-alternation", "stop-start-while-connected" if in_confusion(ev[0]) else ev[3], f"{ev[3]} at t={ev[2]:.4f} follows another {ev[3]}"))
 
     # R3: failed attempts reported; never more reports than failures
     errs = [ev for ev in h if ev[3] == "rl_on_error"]
@@ -487,6 +496,33 @@ def gen_c18(rng: random.Random) -> dict:
     return scn
 
 
+def gen_queued_start_then_stop(rng: random.Random) -> dict:
+    """stop() during a live session; the session ends and the application's slow on_disconnect callback holds the manager's
+    lock; start() and then stop() are called meanwhile (both queue up behind the callback): when that last stop() has
+    returned, nothing may start any more."""
+    scn = gen_c18(random.Random(rng.getrandbits(32)))
+    d = pick(rng, [0.7, 1.5, 3.0])
+    t_stop = pick(rng, [1.0, 2.0])
+    t_end = t_stop + pick(rng, [0.5, 1.0])
+    t_start = t_end + pick(rng, [0.05, 0.3]) * d
+    t_stop2 = t_start + pick(rng, [0.0, 0.001, 0.2 * d])
+    scn["client"]["addresses"] = ["10.0.0.5"]
+    scn["device"] = {k: v for k, v in scn["device"].items() if k in ("transport", "psk", "eph_seed")}
+    scn["net"]["connect"] = {"10.0.0.5": [{"outcome": "ok", "latency": 0.001}]}
+    scn["client"].pop("expected_name", None)
+    rl_new = dict(scn["actors"][0]["steps"][0], cb_delay={"disconnect": d})
+    scn["actors"] = [{"id": "a0", "at": {"t": 0.0}, "steps": [rl_new, {"do": "rl.start"}]},
+                     {"id": "s1", "at": {"t": t_stop}, "steps": [{"do": "rl.stop"}]},
+                     {"id": "s2", "at": {"t": t_start}, "steps": [{"do": "rl.start"}]},
+                     {"id": "s3", "at": {"t": t_stop2}, "steps": [{"do": "rl.stop"}]}]
+    scn["events"] = [{"at": {"t": t_end}, "do": "fault", "kind": pick(rng, ["fin", "rst"]), "latency": 0.0}]
+    scn.pop("healthy_from", None)
+    scn.pop("zc_unavailable", None)
+    scn["knobs"].pop("zc_create_fails", None)
+    scn["end"] = t_stop2 + d + 80.0
+    return scn
+
+
 class C18(CheckBase):
     pid = "C18"
     level = "exploration"
@@ -494,6 +530,9 @@ class C18(CheckBase):
     thorough_cases = 64000
 
     def cases(self, rng: random.Random, tier: str, idx: int) -> Iterable[dict]:
+        if idx % 40 == 13:
+            yield gen_queued_start_then_stop(rng)
+            return
         yield gen_c18(rng)
 
     def oracle(self, run: Any, scn: dict) -> list[Violation]:
